@@ -49,11 +49,20 @@ BoilerLines(s) ==
     [] s = "dneblock"    -> <<L("bopen"), L("bmid"), L("bmid"), L("bclose")>>   \* the same inside /* */
     [] s = "othermarker" -> <<L("marker"), L("lc")>>          \* a full conforming marker line of another tool
     [] s = "nearmiss"    -> LCs(2)                           \* marker without the final period / in lower case
+    \* characters that are legal inside a Go comment but that a "printable text" filter drops or rewrites; always in the
+    \* MIDDLE of a line (at the end of a line they fall under the trailing-blanks class)
+    [] s = "zs"       -> LCs(2)       \* non-ASCII spaces (Zs): U+00A0, U+202F, U+3000, U+2003
+    [] s = "zlzp"     -> LCs(2)       \* U+2028 / U+2029 (Zl, Zp): not line ends for Go
+    [] s = "cf"       -> LCs(2)       \* format characters (Cf): U+200C, U+200D, soft hyphen, U+2060, U+200E
+    [] s = "ctrl"     -> LCs(2)       \* other control characters (Cc) except NUL: form feed, vertical tab, BEL, ESC, DEL, U+0085
+    [] s = "uniblock" -> <<L("bopen"), L("bmid"), L("bmid"), L("bmid"), L("bmid"), L("bclose")>>   \* all of them inside /* */
     [] s = "blocklist" -> <<L("bopen"), L("bmid"), L("bmid"), L("bmid"), L("bmid"), L("bclose")>>   \* /* */ with " * " gutter and a list
 
 \* raw text = L1 \n L2 \n L3 [ \n <boilerplate bytes> ] [ \n\n //go:build <expr> ] \n\n package ...
 \* A trailing newline of the boilerplate terminates its last line; what follows starts with a newline of its own,
 \* which then shows as one more blank line.
+\* The header is a function of (mock-build-tags, boilerplate-file, formatter) alone: neither the platform nor a build
+\* constraint of the SOURCE file that declares the interfaces enters it (HeaderContract!SrcCons is a world dimension).
 MarkerPart        == <<L("marker"), L("lc"), L("lc")>>
 BoilerPart(s, n)  == IF s = "none" THEN << >> ELSE BoilerLines(s) \o (IF n THEN <<L("blank")>> ELSE << >>)
 BuildTagPart(e)   == IF e.op = "none" THEN << >> ELSE <<L("blank"), GoBuild(e)>>
